@@ -67,7 +67,7 @@ func genNullyBlob(c *fw.Case, sz sizes) []byte {
 }
 
 func runC09(c *fw.Case) {
-	if desyncBin() != "" && c.Chance(1, procRate(400), "c09.proc") {
+	if desyncBin() != "" && c.ChanceAdded(1, procRate(400), "c09.proc") {
 		runC09Proc(c)
 		return
 	}
